@@ -240,24 +240,31 @@ class _AsyncFileReader(_UnicodeReader[AnyStr]):
         self._bufsize = bufsize
         self._datatype = datatype
         self._paused = False
+        self._feeding = False
 
     async def _feed(self) -> None:
         """Feed file data"""
 
-        while not self._paused:
-            data = await self._file.read(self._bufsize)
+        try:
+            while not self._paused:
+                data = await self._file.read(self._bufsize)
 
-            if data:
-                self._process.feed_data(self.decode(data), self._datatype)
-            else:
-                self.check_partial()
-                self._process.feed_eof(self._datatype)
-                break
+                if data:
+                    self._process.feed_data(self.decode(data), self._datatype)
+                else:
+                    self.check_partial()
+                    self._process.feed_eof(self._datatype)
+                    break
+        finally:
+            self._feeding = False
 
     def feed(self) -> None:
         """Start feeding file data"""
 
-        self._conn.create_task(self._feed())
+        # Don't start another reader if one is still waiting on a read
+        if not self._feeding:
+            self._feeding = True
+            self._conn.create_task(self._feed())
 
     def pause_reading(self) -> None:
         """Pause reading from the file"""
@@ -548,24 +555,31 @@ class _StreamReader(_UnicodeReader[AnyStr]):
         self._bufsize = bufsize
         self._datatype = datatype
         self._paused = False
+        self._feeding = False
 
     async def _feed(self) -> None:
         """Feed stream data"""
 
-        while not self._paused:
-            data = await self._reader.read(self._bufsize)
+        try:
+            while not self._paused:
+                data = await self._reader.read(self._bufsize)
 
-            if data:
-                self._process.feed_data(self.decode(data), self._datatype)
-            else:
-                self.check_partial()
-                self._process.feed_eof(self._datatype)
-                break
+                if data:
+                    self._process.feed_data(self.decode(data), self._datatype)
+                else:
+                    self.check_partial()
+                    self._process.feed_eof(self._datatype)
+                    break
+        finally:
+            self._feeding = False
 
     def feed(self) -> None:
         """Start feeding stream data"""
 
-        self._conn.create_task(self._feed())
+        # Don't start another reader if one is still waiting on a read
+        if not self._feeding:
+            self._feeding = True
+            self._conn.create_task(self._feed())
 
     def pause_reading(self) -> None:
         """Pause reading from the stream"""
